@@ -326,6 +326,15 @@ func genCfg(r *rand.Rand, g GenOpts) *Cfg {
 		}
 		c.Personas = append(c.Personas, p)
 	}
+	if c.Reuse != 0 && c.Prev != nil && r.Intn(3) == 0 {
+		// the usual life of a table's game object: the previous hand was the same table (same seats, stacks,
+		// blinds, another cut of the deck), checked and called down to its end
+		p := *c
+		p.Prev, p.Reuse, p.Noise, p.PrevSteps = nil, 0, false, 0
+		p.Deck = append(append([]string{}, c.Deck[17:]...), c.Deck[:17]...)
+		c.Prev = &p
+		c.PrevSteps = 1000
+	}
 	return c
 }
 
